@@ -152,6 +152,57 @@ theorem rangeList_complete_pos {lo hi step : Int} (hs : 0 < step) (k : Nat)
     rw [Int.le_ediv_iff_mul_le hs]; exact hle
   omega
 
+/-- completeness for negative step: every lo + k·step above hi is selected -/
+theorem rangeList_complete_neg {lo hi step : Int} (hs : step < 0) (k : Nat)
+    (hk : hi < lo + k * step) : lo + k * step ∈ rangeList lo hi step := by
+  unfold rangeList
+  simp only [List.mem_map, List.mem_range]
+  refine ⟨k, ?_, rfl⟩
+  unfold rangeLen
+  have hns : ¬ (step > 0) := by omega
+  simp only [hns, hs, if_true, if_false]
+  have hpos : 0 < -step := by omega
+  have hnn : 0 ≤ (k : Int) * (-step) := Int.mul_nonneg (by omega) (by omega)
+  have h3 : (k : Int) * (-step) = -((k : Int) * step) := by rw [Int.mul_neg]
+  have hlt : hi < lo := by omega
+  simp only [hlt, if_true]
+  have hle : (k : Int) * (-step) ≤ lo - hi - 1 := by omega
+  have : (k : Int) ≤ (lo - hi - 1) / (-step) := by
+    rw [Int.le_ediv_iff_mul_le hpos]; exact hle
+  omega
+
+/-- the indices of a slice are EXACTLY the arithmetic progression inside the half-open interval
+    (either direction): membership characterisation, soundness + completeness together -/
+theorem mem_rangeList_iff {lo hi step x : Int} (hs : step ≠ 0) :
+    x ∈ rangeList lo hi step ↔
+      ∃ k : Nat, x = lo + k * step ∧ (if 0 < step then x < hi else hi < x) := by
+  constructor
+  · intro hx
+    by_cases hp : 0 < step
+    · obtain ⟨_, h2, k, hk⟩ := mem_rangeList_pos hp hx
+      exact ⟨k, hk, by simp only [hp, if_true]; exact h2⟩
+    · have hn : step < 0 := by omega
+      obtain ⟨h1, _, k, hk⟩ := mem_rangeList_neg hn hx
+      exact ⟨k, hk, by simp only [hp, if_false]; exact h1⟩
+  · rintro ⟨k, rfl, h⟩
+    by_cases hp : 0 < step
+    · simp only [hp, if_true] at h
+      exact rangeList_complete_pos hp k h
+    · have hn : step < 0 := by omega
+      simp only [hp, if_false] at h
+      exact rangeList_complete_neg hn k h
+
+/-- no index is selected twice -/
+theorem rangeList_nodup {lo hi step : Int} (hs : step ≠ 0) : (rangeList lo hi step).Nodup := by
+  unfold rangeList
+  refine (List.pairwise_map).2 ?_
+  refine List.Pairwise.imp ?_ (List.nodup_range (n := rangeLen lo hi step))
+  intro a b hab h
+  apply hab
+  have : (a : Int) * step = (b : Int) * step := by omega
+  have := Int.eq_of_mul_eq_mul_right hs this
+  omega
+
 theorem sliceLo_bounds (n : Nat) (st : Int) (s : Option Int) :
     (0 < st → 0 ≤ sliceLo n st s) ∧ (¬ 0 < st → sliceLo n st s ≤ (n : Int) - 1) := by
   cases s with
